@@ -65,6 +65,25 @@ def run(ctx):
                'every path must write the message bytes exactly once')
         for i, ev in enumerate(p.trace):
             sends = []
+            if ev[0] == 'loop' and any(
+                    kind(c[2]) == 'attr' and c[2][2] == 'sendFileDescriptor'
+                    for bp in ev[4] for c in bp.calls()):
+                # the header declares one descriptor per 'h' argument and the
+                # receiver takes that many off its queue: every turn of the
+                # loop sends one - none is skipped (a duplicate included)
+                quiet = [bp for bp in ev[4] if bp.outcome != 'raise' and
+                         sum(1 for c in bp.calls() if kind(c[2]) == 'attr'
+                             and c[2][2] == 'sendFileDescriptor') != 1]
+                ctx.ob('C20.D1', fi.qualname, 'every-turn-sends-one',
+                       not quiet,
+                       'a turn of the loop over the message\'s descriptors '
+                       'sends none (or several) [%s]: the header announces '
+                       'one descriptor per UNIX_FD argument, the receiver '
+                       'takes that many from its queue - and so consumes '
+                       'descriptors of the NEXT message' % (
+                           '; '.join('%s is %s' % (term_str(c)[:50], pol)
+                                     for c, pol in quiet[0].cond[-2:])
+                           if quiet else ''))
             if ev[0] == 'loop':
                 for bp in ev[4]:
                     for c in bp.calls():
